@@ -5,6 +5,7 @@ package main
 import (
 	"strings"
 
+	"MODULEPATH/zzverif/fakenet"
 	"MODULEPATH/zzverif/rt"
 )
 
@@ -123,7 +124,9 @@ func VC01_Relay() {
 	callID := rt.Str("callid", clsCallID, 1, L)
 	switch path {
 	case 0:
-		start = rt.Str("method", clsToken+"-[%]", 1, L) + " sip:" + rt.Str("ruser", clsUser, 1, L) + "@" + wService + " SIP/2.0"
+		// the request is for the service by name, or by the listener's own address (with / without its port)
+		rhost := []string{wService, wListenAddr, wListenAddr + ":" + itoa(wListenPort), wService + ";transport=udp"}[rt.Choice("ruri-form", 4)]
+		start = rt.Str("method", clsToken+"-[%]", 1, L) + " sip:" + rt.Str("ruser", clsUser, 1, L) + "@" + rhost + " SIP/2.0"
 		head = "Via: SIP/2.0/UDP 10.0.2.2:5060;branch=z9hG4bKa\r\n"
 	case 1:
 		start = "INVITE sip:bob@" + rt.Str("rhost", clsHost, 1, L) + ".example.net SIP/2.0"
@@ -178,3 +181,54 @@ func VC01_Relay() {
 }
 
 var _ = strings.Index
+
+// VC01_Pipelined: two requests with bodies arrive back to back on one TCP connection through the
+// real TCP receive loop and the real message loop; each is relayed with its own body, whatever
+// the segmentation (a decoded message must own its bytes: the read window is reused).
+func VC01_Pipelined() {
+	L := rt.Param("L")
+	// under load decoded messages wait in the proxy's channel while the connection is read on:
+	// the message loop is started only after the whole stream has been consumed (when it lags)
+	lag := rt.Bool("message-loop-lags")
+	w := newWorld(worldOpts{nBackends: 1, tcpListener: true, holdLoop: lag})
+	conn := fakenet.NewTCPConn(wListenAddr+":5060", "10.0.2.2:40000")
+	t := NewTCPServerTransportWithConn(conn, true, w.p.selfLearnRoute)
+	t.Start(w.p)
+	rt.Quiesce()
+	var bodies, texts []string
+	stream := ""
+	for i := 0; i < 2; i++ {
+		b := rt.Str("body", "any", 1, L)
+		bodies = append(bodies, b)
+		m := "MESSAGE sip:u@" + wService + " SIP/2.0\r\nVia: SIP/2.0/TCP 10.0.2.2:40000;branch=z9hG4bKp" + itoa(i) + "\r\nFrom: <sip:alice@example.com>;tag=a\r\nTo: <sip:u@" + wService +
+			">\r\nCall-ID: p" + itoa(i) + "\r\nCSeq: 1 MESSAGE\r\nX-Pad: " + rt.Str("pad", "alnum", 0, L) + "\r\nContent-Length: " + itoa(len(b)) + "\r\n\r\n" + b
+		texts = append(texts, m)
+		stream += m
+	}
+	rt.Assume(bodies[0] != bodies[1]) // distinct bodies: a mix-up must be visible
+	end0 := len(texts[0])
+	cut := []int{0, end0 - 1, end0, end0 + 7}[rt.Choice("cut", 4)]
+	conn.Feed([]byte(stream[:cut]))
+	rt.Quiesce()
+	conn.Feed([]byte(stream[cut:]))
+	rt.Quiesce()
+	if lag {
+		w.startLoop()
+	}
+	sent := w.bs[0].sent
+	rt.Assert(len(sent) == 2, "both requests reach the backend")
+	if len(sent) != 2 {
+		return
+	}
+	for _, out := range sent {
+		m := refRead(out)
+		for i := 0; i < 2; i++ {
+			if m.first("call-id") == "p"+itoa(i) {
+				rt.Assert(m.body == bodies[i], "pipelined: body bytes unchanged")
+				rt.Assert(m.first("content-length") == itoa(len(bodies[i])), "pipelined: Content-Length equals the number of body bytes sent")
+			}
+		}
+	}
+	rt.Assert(refRead(sent[0]).first("call-id") == "p0" && refRead(sent[1]).first("call-id") == "p1", "pipelined: in order")
+	rt.Reach("end")
+}
